@@ -107,7 +107,8 @@ class PSet(object):
 
 
 class Family(object):
-    def __init__(self, name, classes, pool, cost="cheap", gran="pointwise", min_n=1, weight=1.0):
+    def __init__(self, name, classes, pool, cost="cheap", gran="pointwise", min_n=1, weight=1.0, internal=False):
+        self.internal = internal    # harness-defined probe family: never part of C06 workloads or the census count
         self.name = name
         self.classes = classes      # qualified names (without 'exactpack.solvers.')
         self.pool = pool
@@ -335,6 +336,8 @@ _fam("nohblackbox", ["nohblackboxeos.blackboxnoh.NohBlackBoxEos", "nohblackboxeo
                      "nohblackboxeos.blackboxnoh.CylindricalNohBlackBox", "nohblackboxeos.blackboxnoh.SphericalNohBlackBox"], _bb)
 
 BB_SYMMETRY = {1: 0, 2: 1, 3: 2}
+
+_fam("probe", ["verif.probe.ProbeSolver"], [PSet(dict(b=2.0), P1(0., 1.), [1.0]), PSet(dict(a=0.5, b=-1.0), P1(0., 1.), [2.0])], internal=True)
 
 
 # ---------------------------------------------------------------------------------------------
